@@ -27,9 +27,13 @@ class FakeSystemRandom:
     """replaces random.SystemRandom inside mysql_mimic.utils: draws come from the harness PRNG and are recorded"""
     rng = random.Random(0)
     draws = []
+    forced = []          # indices the next draws must take (the harness steers the next nonce: e.g. one whose scramble ends in NUL)
 
     def choice(self, seq):
-        i = FakeSystemRandom.rng.randrange(len(seq))
+        if FakeSystemRandom.forced:
+            i = FakeSystemRandom.forced.pop(0) % len(seq)
+        else:
+            i = FakeSystemRandom.rng.randrange(len(seq))
         FakeSystemRandom.draws.append(i)
         return seq[i]
 
@@ -97,6 +101,11 @@ def make_config(rng, focus=None):
     kinds = kinds[: rng.randrange(1, 6)]
     if "native" not in kinds and rng.random() < 0.7:
         kinds.insert(rng.randrange(len(kinds) + 1), "native")
+    if focus == "multi":
+        # a multi-round plugin next to a single-step default: the account's own plugin must be the one that decides,
+        # also after an auth switch (the default plugin's state from the handshake must not be asked again)
+        kinds = [k for k in kinds if k not in ("native", "custom2")]
+        kinds = ["native"] + kinds + ["custom2"] if rng.random() < 0.7 else ["clear"] + [k for k in kinds if k != "clear"] + ["custom2"]
     if focus == "clear":
         # the clear-password plugin is consulted: as the default plugin (optimistic route) or after a switch
         kinds = [k for k in kinds if k != "clear"]
@@ -157,9 +166,11 @@ def reply_for(rng, strategy, plugin_name, data, user, meta):
                 "nonul2": "sëcret".encode(), "nonul_extra": b"secretX", "short": b"secre", "short_nul": b"secre\0",
                 "nul_junk": b"secret\0junk", "only_nul": b"\0"}.get(strategy, b"dpw\0")
     if data == b"round1__________":
-        return b"a" if strategy != "wrong" else b"x"
+        # the two-round plugin: right answers a / b; wrong ones, and answers another plugin would accept (empty: the native
+        # plugin's password-less quick path; a NUL: what stripping would turn into empty)
+        return {"wrong": b"x", "empty": b"", "nonul": b"", "junk": b"\0"}.get(strategy, b"a")
     if data == b"round2__________":
-        return b"b" if strategy not in ("wrong", "wrong2") else b"y"
+        return {"wrong": b"y", "wrong2": b"y", "empty": b"", "trunc": b"", "junk": b"\0"}.get(strategy, b"b")
     return b""
 
 
@@ -185,6 +196,8 @@ def native_resp(rng, strategy, nonce, meta):
         return good + rng.randbytes(rng.randrange(1, 6))
     if strategy == "empty":
         return b""
+    if strategy == "nuls":
+        return b"\0" * rng.choice([1, 3, 20])       # neither empty nor a scramble
     return rng.randbytes(20)
 
 
@@ -260,6 +273,23 @@ async def run_case(chk, rng, lines, impl, sha_lines, sha_impl, focus=None):
     user_key = rng.choice(list(users) + ["mallory"])
     strategy = rng.choice(STRATS)
     announce = rng.choice([default_client or "", "mysql_native_password", "mysql_clear_password", "custom2_client", "bogus_plugin", ""])
+    if focus == "nul":
+        # auth switch to the native plugin with a nonce whose correct scramble ENDS IN A NUL byte (1 nonce in 256): the
+        # 20-byte proof is binary data, not a C string; and replies made of NULs only for a password-less account
+        user_key = rng.choice(["bob", "bob", "nopw"])
+        strategy = "right" if user_key == "bob" else rng.choice(["nuls", "nuls", "empty"])
+        announce = rng.choice(["mysql_clear_password", "bogus_plugin", "custom2_client"])
+        route = rng.choice(["handshake", "change_user"])
+        want_tail = rng.choice([1, 1, 2])
+        for _ in range(400000):
+            cand = bytes(rng.choice(ALPHA) for _ in range(20))
+            if scramble(meta["pw"].encode("utf8"), cand).endswith(b"\0" * want_tail):
+                FakeSystemRandom.forced = [ALPHA.index(bytes([b])) if isinstance(ALPHA, (bytes, bytearray)) else list(ALPHA).index(b) for b in cand]
+                break
+    if focus == "multi":
+        user_key = "cust"
+        strategy = rng.choice(["empty", "empty", "right", "wrong", "junk", "wrong2", "trunc"])
+        announce = rng.choice(["mysql_native_password", "mysql_clear_password", "bogus_plugin", ""])
     if focus == "clear":
         # the password as transmitted: terminated, unterminated (end of input terminates it), one byte more / less, junk after the NUL
         user_key = rng.choice(["carl", "carl", "carl", "dflt"])
@@ -576,6 +606,11 @@ def main():
             await run_case(chk, rng, lines, impl, sha_lines, sha_impl)
         for k in range(120 if not chk.thorough else 6000):
             await run_case(chk, rng, lines, impl, sha_lines, sha_impl, focus="clear")
+        for k in range(60 if not chk.thorough else 4000):
+            await run_case(chk, rng, lines, impl, sha_lines, sha_impl, focus="multi")
+        for k in range(24 if not chk.thorough else 1500):
+            await run_case(chk, rng, lines, impl, sha_lines, sha_impl, focus="nul")
+            FakeSystemRandom.forced = []
         for k in range(120 if not chk.thorough else 12000):
             await run_overlap(chk, rng, lines, impl)
         for k in range(150 if not chk.thorough else 8000):
